@@ -10,10 +10,17 @@ def args(quick):
     return ["--per", 4, "--chain", 2, "--lines", 1] if quick else ["--per", 12, "--chain", 3, "--lines", 1]
 
 
+def shard_args(quick, k, shards):
+    # the operand sweeps of C01 select timing variants too (A == (HL) for CPIR/CPDR with BC = 1, 2, 0; B and BC around
+    # the end of block I/O and block moves)
+    return ["--sweeps", 1 if quick else 2, "--part", k, "--parts", shards]
+
+
 def rule(quick, shards):
     per, chain = (4, 2) if quick else (12, 3)
     return (f"{shards} shards x {per} random states per encoding x 1792 encodings with INT/NMI lines driven at random "
-            f"(interrupt entries 13/19/11 T), {chain} chained calls; cycle lists compared element by element")
+            f"(interrupt entries 13/19/11 T), {chain} chained calls; plus the operand sweeps (every A against (HL) = A-1, A, A+1 with BC = 1, 2, 0 "
+            "for CPIR/CPDR, boundary pairs for the block instructions); cycle lists compared element by element")
 
 
 ASSUME = ["acknowledge cycles are compared by their memory cycles in order and by total T-states (the position of the "
@@ -22,7 +29,7 @@ ASSUME = ["acknowledge cycles are compared by their memory cycles in order and b
 
 
 def run(tier, seed):
-    return run_z80(PID, tier, seed, OWNED, args, rule, ASSUME, shards_q=4).finish()
+    return run_z80(PID, tier, seed, OWNED, args, rule, ASSUME, shards_q=4, shard_args=shard_args).finish()
 
 
 def replay(path, seed):
